@@ -802,8 +802,8 @@ func badRoleName(b *rawPeer) string {
 var _ = proto.Equal
 
 func init() {
-	Register(&Family{Name: "c16.raw", Props: []string{"C16"}, New: func() any { return &ProxyParams{} }, Gen: genProxyRaw(false), Exec: execProxyRaw,
+	Register(&Family{Name: "c16.raw", ShrinkKeys: []string{"envs", "fail_at"}, Props: []string{"C16"}, New: func() any { return &ProxyParams{} }, Gen: genProxyRaw(false), Exec: execProxyRaw,
 		Faulty: true, FaultKinds: []string{"dial.error", "dial.slow"}})
-	Register(&Family{Name: "c17.peers", Props: []string{"C17"}, New: func() any { return &ProxyParams{} }, Gen: genProxyRaw(true), Exec: execProxyRaw,
+	Register(&Family{Name: "c17.peers", ShrinkKeys: []string{"envs", "fail_at", "cancel_at"}, Props: []string{"C17"}, New: func() any { return &ProxyParams{} }, Gen: genProxyRaw(true), Exec: execProxyRaw,
 		Faulty: true, FaultKinds: []string{"peer.spoof", "peer.noheader", "link.readFail", "link.writeFail", "link.stall", "dial.error", "dial.slow", "peer.reattach", "proxy.cancel"}})
 }
